@@ -95,6 +95,6 @@ META = dict(
     note="Trusted: Lean kernel + propext/Classical.choice/Quot.sound; the K correspondence generator (zero, negative demand, "
          "table end points, outside values, single-row and empty tables, NaN proportion); exact-real reading of the identities.",
     technique="Lean 4 proof (ring/linarith over the unfolded kernels, list induction for series) + differential "
-              "correspondence model vs real code + Go-side identity oracles",
+              "correspondence model vs real code + Go-side identity oracles + model regenerated from the Go source on every run by a translator (gen_eq_* theorems tie it to the hand-written model) + inequality clauses re-proved for every monotone rounding (RNum)",
 )
 READY = True
